@@ -364,18 +364,23 @@ Qed.
 
 Lemma half_bounds_in w hs : 0 < w < SHIFT_LIMIT -> forall bs h,
   half_bounds w hs = Ok bs -> In h hs -> lb h <= ub h -> 0 <= lb h -> ub h < 2 ^ w ->
+  (ub h < 2 ^ (w - 1) \/ 2 ^ (w - 1) <= lb h) ->
   In (sgn w (lb h), sgn w (ub h)) bs.
 Proof.
-  intros Hw. induction hs as [|h0 rest IH]; intros bs h Hb Hin Hlu Hl Hu; [destruct Hin|].
-  cbn [half_bounds] in Hb. destruct (ub h0 <? lb h0) eqn:E.
-  - destruct Hin as [->|Hin]; [apply Z.ltb_lt in E; lia|]. exact (IH bs h Hb Hin Hlu Hl Hu).
-  - destruct (si_unsigned_to_signed (lb h0) w) as [l0| | |] eqn:E1; try discriminate. cbn [bind] in Hb.
-    destruct (si_unsigned_to_signed (ub h0) w) as [u0| | |] eqn:E2; try discriminate. cbn [bind] in Hb.
-    destruct (half_bounds w rest) as [bs0| | |] eqn:E3; try discriminate. cbn [bind] in Hb.
+  intros Hw. induction hs as [|h0 rest IH]; intros bs h Hb Hin Hlu Hl Hu Hhemi; [destruct Hin|].
+  cbn [half_bounds] in Hb.
+  destruct (si_unsigned_to_signed (lb h0) w) as [l0| | |] eqn:E1; try discriminate. cbn [bind] in Hb.
+  destruct (si_unsigned_to_signed (ub h0) w) as [u0| | |] eqn:E2; try discriminate. cbn [bind] in Hb.
+  destruct (u0 <? l0) eqn:E.
+  - destruct Hin as [->|Hin]; [|exact (IH bs h Hb Hin Hlu Hl Hu Hhemi)].
+    (* the half that covers a member is never skipped: within one hemisphere the signed reading is monotone *)
+    exfalso. rewrite u2s_ok in E1, E2 by lia. inversion E1; inversion E2; subst l0 u0.
+    apply Z.ltb_lt in E. pose proof (sgn_mono w (lb h) (lb h) (ub h) ltac:(lia) Hl ltac:(lia) Hu Hhemi). lia.
+  - destruct (half_bounds w rest) as [bs0| | |] eqn:E3; try discriminate. cbn [bind] in Hb.
     inversion Hb; subst bs; clear Hb.
     destruct Hin as [->|Hin].
     + rewrite u2s_ok in E1, E2 by lia. inversion E1; inversion E2. left; reflexivity.
-    + right. exact (IH bs0 h eq_refl Hin Hlu Hl Hu).
+    + right. exact (IH bs0 h eq_refl Hin Hlu Hl Hu Hhemi).
 Qed.
 
 Lemma piece_bounds_in a ps : forall bs p,
